@@ -6,55 +6,55 @@ claim("C01", "SSA dominance facts (must-pass-through) + error-flow analysis + fi
 claim("C05", "SSA def-use wiring + path facts over the compare loop + access-path tables",
       "Decides: only verified links flow through sublayouts/reduce/rules/summary; every link of a step is compared on materials and "
       "products on every path to the loop latch and mismatches fail; summary endpoints are Steps[0].Materials / Steps[len-1].Products / the "
-      "requested name; nothing that receives the verified link map up to and including the agreement check writes through it (effects analysis with the map as owned memory), except the sublayout replacement; the loops are exhaustive (the compare loop may range over the map or over its complete sorted key list); every counted sublayout is replaced by the summary of its own verification (shared R-C08-1/3). Does not decide DeepEqual semantics or rule verdicts.", "4.5")
+      "requested name; nothing that receives the verified link map up to and including the agreement check writes through it (effects analysis with the map as owned memory), except the sublayout replacement; the loops are exhaustive (the compare loop may range over the map or over its complete sorted key list); every counted sublayout is replaced by the summary of its own verification (shared R-C08-1/3); the link loader files one link per functionary key id under the exact glob (shared R-C02-5). Does not decide DeepEqual semantics or rule verdicts.", "4.5")
 claim("C06", "SSA dominance facts (must-pass-through) + constant/time-layout table + branch polarity evaluation",
       "Decides: every later stage and success return is dominated by a successful expiry check of the verified layout; the check parses a "
       "constant full-UTC layout, propagates parse errors and fails for an expiry in the past; the expiry check is found by what it does (parses layout.Expires — directly or through a one-argument parse helper — as UTC, compares with the clock), and the reference time is time.Now() in the check or a parameter every call site fills with a fresh time.Now(). Does not decide clock behaviour.", "4.6")
 claim("C08", "SSA shape analysis of VerifySublayouts + call-graph identity of the recursive entry point",
       "Decides: every Layout payload in the verified map is passed to the same verification entry point with exactly the parent layout's "
       "key of the counted functionary, the <step>.<8-char keyid> directory and the step name; its error fails; the summary replaces it. "
-      "VerifySublayouts receives the directory this layout's own links were loaded from (shared option wiring R-C09-6); the summary endpoints are set for every layout with at least one step (length conditions evaluated at 1 and 0, shared R-C05-3). Does not decide termination on adversarial directory structures.", "4.8")
+      "VerifySublayouts receives the directory this layout's own links were loaded from (shared option wiring R-C09-6); the summary endpoints are set for every layout with at least one step (length conditions evaluated at 1 and 0, shared R-C05-3); every authorized link reaches VerifySublayouts (no early exit of the per-link loop, shared R-C02-4). Does not decide termination on adversarial directory structures.", "4.8")
 claim("C09", "SSA dominance facts (ordering) + shape analysis + who-may-call",
       "Decides: inspections run only after all step checks succeeded and success requires successful inspections and inspection rules; "
       "RunInspections runs every inspection's own command in order, fails on start failure and non-zero status; exit-status type agreement; "
-      "materials before / products after the command; os/exec only via RunInspections->InTotoRun->RunCommand; the shared rule engine's MATCH guards, queue / consumption wiring and failing rule types (R-C03-4/5/6); the recorder's walk discipline (shared R-C13-3); every non-empty command reaches RunCommand; exhaustive loops. Does not decide artifact recording.", "4.9")
+      "materials before / products after the command; os/exec only via RunInspections->InTotoRun->RunCommand; the shared rule engine's MATCH guards, queue / consumption wiring and failing rule types (R-C03-4/5/6); the recorder's walk discipline (shared R-C13-3); every non-empty command reaches RunCommand; inspections record with sha256, no excludes, no strip prefixes; recording options in declared order (R-C13-7); exhaustive loops. Does not decide artifact recording.", "4.9")
 claim("C14", "typestate over *exec.Cmd in SSA + def-use pairing of streams and keys + error-flow",
       "Decides: the two pipes of one Cmd are never drained sequentially in the waiting goroutine; Wait dominates success returns and follows "
-      "reads; return-value/stdout/stderr derive from Wait/stdout/stderr respectively; empty command refused before indexing; a Start/Run error is returned unless it is an *exec.ExitError (disjunctive branch facts); no blocking drain under a mutex; no exec.Cmd option (WaitDelay, Cancel, CommandContext) that makes Wait fail for a command that exited; InTotoRun hands every non-empty command to RunCommand (control-dependent only on the emptiness test and earlier errors, shared R-C09-4). Does not decide timing "
+      "reads; return-value/stdout/stderr derive from Wait/stdout/stderr respectively; empty command refused before indexing; a Start/Run error is returned unless it is an *exec.ExitError (disjunctive branch facts); no blocking drain under a mutex; no exec.Cmd option (WaitDelay, Cancel, CommandContext) that makes Wait fail for a command that exited; InTotoRun hands every non-empty command to RunCommand (control-dependent only on the emptiness test and earlier errors, shared R-C09-4); the status conversion returns 0, -1 or the unmodified WaitStatus.ExitStatus(). Does not decide timing "
       "or signal exits.", "4.14")
 claim("C02", "SSA guarded-store analysis (dominance facts keyed by value identity) + branch normal form + map-order analysis + error-flow",
       "Decides: a link is stored in the verified map only under a successful VerifySignature with layout.Keys[id] for an id of the current step's "
       "PubKeys equal to the map key, or with the link's own certificate after a successful CheckCertConstraints of the current step and with the "
       "certificate's own key id as map key; threshold comparison fails iff len < threshold, for every step; loader keys files by their own signature "
-      "selected by file-name prefix and skips garbage; the guards are also found inside an unexported helper whose nil result dominates the store (guard frames); the certificate route trusts only the layout's roots: both certificate pools are non-nil on every success return and the root pool is fed from layout.RootCas only (shared R-C07-3/4); the loader's file-name trimming is the inverse of the naming format (shared R-C20-3). Does not decide the cryptography or constraint semantics.", "4.2")
+      "selected by file-name prefix and skips garbage; the guards are also found inside an unexported helper whose nil result dominates the store (guard frames); the certificate route trusts only the layout's roots: both certificate pools are non-nil on every success return and the root pool is fed from layout.RootCas only (shared R-C07-3/4); the loader's file-name trimming is the inverse of the naming format (shared R-C20-3); checkRoots passes (root pool, intermediate pool) in that order (shared R-C07-2). Does not decide the cryptography or constraint semantics.", "4.2")
 claim("C10", "map-order independence analysis (A3) + interprocedural effects/alias analysis (A4) + hidden-input reachability",
       "Decides: no range over a Go map on the verification paths leaks iteration order (loop-carried state, early element exit, unsorted accumulation, "
       "insertion into the ranged map); no write through memory reachable from the entry points' parameters; time/env/randomness only in the expiry check; accumulation kept in an address-taken variable is tracked too and a sort only counts if its comparison function compares its two elements; "
-      "no mutable package state. Does not decide determinism of the file system, commands or crypto/x509.", "4.10")
+      "no mutable package state. A4 passes the content bits of a local variable along with a pointer to it (two write sites reviewed for struct-level taint imprecision). Does not decide determinism of the file system, commands or crypto/x509.", "4.10")
 claim("C16", "global-write analysis over SSA (package-level state, process-global mutators, shared results)",
       "Decides a sufficient structural condition: no package-level variable of in_toto/internal/spiffe is written or written through outside init, no "
-      "process-global mutators are called, dependency globals reached are read-only, no exported function returns package-level memory; sync.Map/Pool/Mutex/Once/atomic operations and channel send/receive/select on package-level variables count as shared state (stronger than the property: a correct pool would be reported too). No exported function writes through its slice/map/pointer parameters (effects analysis), except two reviewed pipeline stages. Does not "
+      "process-global mutators are called, dependency globals reached are read-only, no function returns package-level memory; sync.Map/Pool/Mutex/Once/atomic operations and channel send/receive/select on package-level variables count as shared state (stronger than the property: a correct pool would be reported too). No exported function writes through its slice/map/pointer parameters (effects analysis), except two reviewed pipeline stages. Does not "
       "decide races inside the runtime/stdlib.", "4.16")
 claim("C03", "keyword/grammar table agreement + per-arm facts on phi edges + guarded-store analysis in the MATCH helper + error-flow",
       "Decides: parser, interpreter and spec keyword sets agree; the parser's MATCH grammar table (lengths, keyword positions, extracted fields) and the "
       "length-2 rule for generic rules; only DISALLOW/REQUIRE fail; the queue is live and updated on every path; each rule type consumes the right set "
       "(created/deleted/modified defined correctly); MATCH consumes only under pattern match, destination existence, hash equality and prefix membership. "
-      "Every item / round / rule / artifact loop is left only by exhaustion or failure (no rule is skipped). Does NOT decide agreement of the interpreter with the spec on all rule programs (set algebra, glob semantics).", "4.3")
+      "Every item / round / rule / artifact loop is left only by exhaustion or failure (no rule is skipped); the glob matcher's structural rules (star scan, non-empty reads, RuneError width) are shared from C17. Does NOT decide agreement of the interpreter with the spec on all rule programs (set algebra, glob semantics).", "4.3")
 claim("C04", "sibling agreement of Sign/VerifySignature over SSA def-use + key-type table agreement + constant tables",
       "Decides: sign and verify use the same bytes and the same signer/verifier constructor per wrapper; signatures accumulate in both wrappers (the new list is a plain append to the whole previous list, directly or in one helper); hex "
       "codec pair and key id; key-type tables agree with matching constructors; wrapper detection and payload-type constant; package in_toto never base64-decodes envelope fields itself (who-may-call). Does not decide cryptographic soundness.", "4.4")
 claim("C07", "struct-field coverage + closure/parameter provenance chains + dominance facts + option-literal inspection",
       "Decides: all six attribute checks are evaluated and accumulated, every constraint field is read; chain verification precedes root comparison "
       "with the captured pools; VerifyOptions uses exactly the two pool parameters; root pool fed only from layout.RootCas; any-of loop shape; "
-      "attribute-to-certificate-field table. Does not decide the value semantics of checkCertConstraint or crypto/x509.", "4.7")
+      "attribute-to-certificate-field table; certificate URIs are compared in their exact (*url.URL).String form. Does not decide the value semantics of checkCertConstraint or crypto/x509.", "4.7")
 claim("C11", "type-level JSON schema extraction compared with a frozen wire-format table + encoder provenance of the DSSE payload",
       "Decides: the JSON view of all metadata types equals the in-toto schema (names, omitempty, kinds, no custom marshalers); the legacy signable bytes are "
       "cjson.EncodeCanonical(Signed) unprocessed; the DSSE payload bytes come from encoding/json or from cjson only under json.Valid; strict decoding; cjson "
-      "panics recovered; the payload loader returns the decoded object unmodified (no store and no call that writes through it between Decode and return: A4). Does not decide injectivity or reference equality of canonical JSON.", "4.11")
+      "panics recovered; the required-member check refuses only absent keys (shared R-C12-2); the payload loader returns the decoded object unmodified (no store and no call that writes through it between Decode and return: A4). Does not decide injectivity or reference equality of canonical JSON.", "4.11")
 claim("C12", "sibling cross-check of the two loaders + nil-dereference facts + static reachability of the validator family + constant tables",
       "Decides: both loaders nil-test raw parts, share the strict decoder and fail on its error; required-field check uses the decoded type and refuses a member only when its key is absent (null written by the writers loads back); unknown markers "
       "fail; writer/reader key agreement; every validator (incl. inspections) is wired from ValidateMetablock; format constants; constructors initialise the "
-      "signature list; DSSE payload encoder provenance (shared R-C11-3); validator loops are exhaustive and an error kept across iterations is not overwritten by a later element. Does not decide round-trip equality or exactness of the validator.", "4.12")
+      "signature list; DSSE payload encoder provenance (shared R-C11-3); validator and verifier parse Expires with the same constant layout (shared R-C06-2); validator loops are exhaustive and an error kept across iterations is not overwritten by a later element. Does not decide round-trip equality or exactness of the validator.", "4.12")
 claim("C17", "guarded-store facts + reachability + return-shape analysis of the matcher",
       "Decides only: a malformed pattern can not add to Filter's result; rule verification reaches no other matcher; error returns carry matched=false and "
       "only the bad-pattern sentinel; whole-name exhaustion and trailing-star shape; no '/' special-casing; scanner/matcher escape agreement; the star scan retries every byte offset and the name is not sliced otherwise; matchChunk reads the name only where it is known non-empty (flag-implied branch facts); utf8.RuneError is malformed only with width 1. The glob grammar itself is NOT decided.", "4.17")
@@ -65,7 +65,7 @@ claim("C18", "write-set / field-coverage analysis + constant regexp tree compari
 claim("C13", "constant table + SSA provenance of hashed bytes / digests + dominance facts over the walk callback + def-use of the three-way difference",
       "Decides: hash algorithm table; RecordArtifact hashes the bytes of the named file (os.ReadFile or io.ReadAll of os.Open), rewrites only under lineNormalization and only with the CRLF->LF, CR->LF replacement pair (directly or in one helper), fails on unknown algorithms, "
       "stores each digest under the name whose constructor computed it; walk discipline (errors returned, exclusion before hashing, dir symlinks only on request, "
-      "cycle and collision errors, ToSlash, fresh visited set); snapshot discipline of run/record start/stop; InTotoMatchProducts' three results (compared hash maps allocated per name). Does NOT decide "
+      "cycle and collision errors, ToSlash, fresh visited set); snapshot discipline of run/record start/stop; InTotoMatchProducts' three results (compared hash maps allocated per name); the recording options reach RecordArtifacts in their declared positions in InTotoRun / InTotoRecordStart / InTotoRecordStop (sibling agreement). Does NOT decide "
       "completeness of the walk, symlink semantics on real trees or digest values.", "4.13")
 claim("C15", "panic-site obligation analysis over SSA: explicit panics, unchecked assertions, index/slice bound idioms with length facts (disjunctive, phi-aware, callee summaries), nil-deref and nil-map facts",
       "Decides absence of reachable, unguarded panic sites in in_toto code reachable from the loading/validating/signing/verifying entry set: every explicit panic, "
@@ -75,8 +75,8 @@ claim("C15", "panic-site obligation analysis over SSA: explicit panics, unchecke
 claim("C19", "map-literal / type-switch table extraction + provenance of key halves + parser-set check",
       "Decides: key-id preimage members and their sources (no private material), sha256+hex; per parsed type the right public/private bytes and key-type constant; "
       "default scheme table; private half only under the length guard from private bytes with the right PEM type, KeyVal rebuilt; exactly five accepted encodings tried on the decoded bytes whatever the PEM label says, nil "
-      "PEM block refused; SPIFFE conversion shape. Does not decide id distinctness or sign/verify capability.", "4.19")
+      "PEM block refused; SPIFFE conversion shape; no package-level default list is shared between loaded keys (shared R-C16-4). Does not decide id distinctness or sign/verify capability.", "4.19")
 claim("C20", "cobra command-literal and flag-registration extraction + def-use of package variables into library parameters + error-flow + constant format agreement",
-      "Decides: commands attached and RunE; every library error returned; Execute => non-zero exit; match-products exit condition; flag->variable table, required flags, "
+      "Decides: commands attached and RunE; every library error returned; Execute => non-zero exit; match-products exit condition; flag->variable table, required flags, path-list flags registered as string arrays (no CSV splitting), "
       "variables passed to the right library parameters; link naming formats agree with the loader; key loaded before use and certificate attached; sign/verify command "
       "shapes. Does not decide end-to-end acceptance of honest chains.", "4.20")
